@@ -10,7 +10,8 @@
      Hmerged : the merged component of a non-empty list of arguments of F, followed by the
                remaining components, is a decomposition of F containing the listed arguments
      Hgr     : [grounded g] is the grounded extension of F, without duplicates
-     Hgr_cc  : [grounded] is correct on the compact framework of a component
+     Hgr_cc  : [grounded] is correct on the compact framework of every component of every
+               decomposition of F (instance of: grounded is correct on compact frameworks)
    Results are lists of GLOBAL ids. *)
 From Crusta Require Import Spec.AF Sat.Cnf Sat.Prog Model.Encoders Model.Graph Model.Solvers.
 From Crusta Require Import Spec.SemFacts Spec.Theory Spec.Invariance Proofs.Decomp.
@@ -580,7 +581,7 @@ Hypothesis Hmerged : forall al, al <> [] -> (forall a, In a al -> In a (args F))
     merged_cc_of g (cc_new g) al = Some (s', c) /\ (forall a, In a al -> In a (c_ids c)) /\
     remaining_ccs g s' = Some rest /\ decomp_ok F (c :: rest).
 Hypothesis Hgr : gr F (grounded g) /\ NoDup (grounded g).
-Hypothesis Hgr_cc : forall c, compact_af (c_af c) (length (c_ids c)) ->
+Hypothesis Hgr_cc : forall ccs c, decomp_ok F ccs -> In c ccs ->
   gr (c_af c) (grounded (view_of_af (c_af c))).
 
 (* ---------------------------------------------------------------- (G1) GR *)
@@ -778,7 +779,7 @@ Proof using Hthr Hvalid Hmerged Hgr_cc.
       apply Forall2_map_same. intros oc Hoc.
       assert (Hoc' : In oc (c :: rest)) by (right; exact Hoc).
       apply (gr_co (c_af oc)); [exact (comp_af_wf F (c :: rest) Hok oc Hoc')|].
-      apply Hgr_cc. exact (comp_compact F (c :: rest) Hok oc Hoc'). }
+      exact (Hgr_cc (c :: rest) oc Hok Hoc'). }
     assert (Hmeet : exists a, In a al /\ In a L).
     { apply meets_spec in H2. destruct H2 as [i [Hi HiX]]. exists (cc_global c i). split.
       - rewrite <- Hmap. apply in_map. exact Hi.
@@ -795,7 +796,7 @@ Qed.
    this is part of the theorems above.  For the CO certificate (model of the merged component
    followed by the grounded extensions of the other components) it needs that [grounded] returns a
    duplicate-free list on a component: *)
-Hypothesis Hgr_cc_nd : forall c, compact_af (c_af c) (length (c_ids c)) ->
+Hypothesis Hgr_cc_nd : forall ccs c, decomp_ok F ccs -> In c ccs ->
   NoDup (grounded (view_of_af (c_af c))).
 
 Theorem co_dc_cert_nodup : forall e al,
@@ -814,9 +815,10 @@ Proof using Hthr Hvalid Hmerged Hgr_cc Hgr_cc_nd.
                 (X :: map (fun oc => grounded (view_of_af (c_af oc))) rest)).
   { constructor; [split; [exact H1|exact H2]|]. apply Forall2_map_same. intros oc Hoc.
     assert (Hoc' : In oc (c :: rest)) by (right; exact Hoc).
-    pose proof (comp_compact F (c :: rest) Hok oc Hoc') as Hc. split.
-    - apply (gr_co (c_af oc)); [exact (comp_af_wf F (c :: rest) Hok oc Hoc')|]. apply Hgr_cc. exact Hc.
-    - apply Hgr_cc_nd. exact Hc. }
+    split.
+    - apply (gr_co (c_af oc)); [exact (comp_af_wf F (c :: rest) Hok oc Hoc')|].
+      exact (Hgr_cc (c :: rest) oc Hok Hoc').
+    - exact (Hgr_cc_nd (c :: rest) oc Hok Hoc'). }
   destruct (glue_ext_full F (c :: rest) Hok CO _ H) as [_ [H3 H4]]. split; assumption.
 Qed.
 
